@@ -176,7 +176,7 @@ theorem renderRow_eq (K : Consts) (cass : List Cas) (hp : Heap) (byId : List (Op
           match slot hp a "elements" with
           | none => .error .attributeError
           | some v =>
-            match renderVal K hp byId (hp.length + 1) v with
+            match renderVal K hp byId (2 * hp.length + 2) v with
             | .error e => .error e
             | .ok c => .ok ([anchorCell hp byId a] ++ cov ++ [c])
         else
@@ -189,7 +189,7 @@ theorem renderRow_eq (K : Consts) (cass : List Cas) (hp : Heap) (byId : List (Op
           match slot hp a "elements" with
           | none => (throw Err.attributeError : Except Err (List Cell))
           | some v => do
-            let c ← renderVal K hp byId (hp.length + 1) v
+            let c ← renderVal K hp byId (2 * hp.length + 2) v
             pure ([match getById byId (xidOf hp a) with | some s => Cell.str s | none => Cell.none] ++ cov ++ [c])
         else do
           let cs ← renderCols K hp byId a (columns t)
@@ -198,7 +198,7 @@ theorem renderRow_eq (K : Consts) (cass : List Cas) (hp : Heap) (byId : List (Op
           match slot hp a "elements" with
           | none => .error .attributeError
           | some v =>
-            match renderVal K hp byId (hp.length + 1) v with
+            match renderVal K hp byId (2 * hp.length + 2) v with
             | .error e => .error e
             | .ok c => .ok ([match getById byId (xidOf hp a) with | some s => Cell.str s | none => Cell.none] ++ cov ++ [c])
         else
@@ -212,7 +212,7 @@ theorem renderRow_eq (K : Consts) (cass : List Cas) (hp : Heap) (byId : List (Op
       | none => rfl
       | some v =>
         simp only [bind, Except.bind, pure, Except.pure]
-        cases renderVal K hp byId (hp.length + 1) v <;> rfl
+        cases renderVal K hp byId (2 * hp.length + 2) v <;> rfl
     · simp only [harr, Bool.false_eq_true, if_false, bind, Except.bind, pure, Except.pure]
       cases renderCols K hp byId a (columns t) <;> rfl
   by_cases hc : (ann && isAnnot hp a) = true
@@ -227,7 +227,7 @@ theorem renderRow_ok {K : Consts} {cass : List Cas} {hp : Heap} {byId : List (Op
     {ann : Bool} {a : Nat} {r : List Cell} (h : renderRow K cass hp byId t ann a = .ok r) :
     ∃ cov : List Cell, covOf cass hp ann a = .ok cov ∧
       (isArrayFs K hp a = true → ∃ v c, slot hp a "elements" = some v ∧
-        renderVal K hp byId (hp.length + 1) v = .ok c ∧ r = anchorCell hp byId a :: (cov ++ [c])) ∧
+        renderVal K hp byId (2 * hp.length + 2) v = .ok c ∧ r = anchorCell hp byId a :: (cov ++ [c])) ∧
       (isArrayFs K hp a = false → ∃ cs, renderCols K hp byId a (columns t) = .ok cs ∧
         r = anchorCell hp byId a :: (cov ++ cs)) := by
   rw [renderRow_eq] at h
@@ -244,7 +244,7 @@ theorem renderRow_ok {K : Consts} {cass : List Cas} {hp : Heap} {byId : List (Op
       | some v =>
         rw [hv] at h
         simp only [] at h
-        cases hc : renderVal K hp byId (hp.length + 1) v with
+        cases hc : renderVal K hp byId (2 * hp.length + 2) v with
         | error e => rw [hc] at h; cases h
         | ok c =>
           rw [hc] at h
@@ -292,17 +292,17 @@ theorem renderCols_len {K : Consts} {hp : Heap} {byId : List (Option Int × Stri
 theorem renderCols_cell {K : Consts} {hp hp' : Heap} {byId byId' : List (Option Int × String)} {a : Nat}
     (cols : List String) (cs : List Cell) (h : renderCols K hp byId a cols = .ok cs)
     (h' : renderCols K hp' byId' a cols = .ok cs) (f : String) (hf : f ∈ cols) :
-    ∃ c, renderVal K hp byId (hp.length + 1) ((slot hp a f).getD .none) = .ok c ∧
-      renderVal K hp' byId' (hp'.length + 1) ((slot hp' a f).getD .none) = .ok c := by
+    ∃ c, renderVal K hp byId (2 * hp.length + 2) ((slot hp a f).getD .none) = .ok c ∧
+      renderVal K hp' byId' (2 * hp'.length + 2) ((slot hp' a f).getD .none) = .ok c := by
   induction cols generalizing cs with
   | nil => cases hf
   | cons n ns ih =>
     rw [renderCols] at h h'
-    cases hc : renderVal K hp byId (hp.length + 1) ((slot hp a n).getD .none) with
+    cases hc : renderVal K hp byId (2 * hp.length + 2) ((slot hp a n).getD .none) with
     | error e => rw [hc] at h; cases h
     | ok c =>
       rw [hc] at h
-      cases hc' : renderVal K hp' byId' (hp'.length + 1) ((slot hp' a n).getD .none) with
+      cases hc' : renderVal K hp' byId' (2 * hp'.length + 2) ((slot hp' a n).getD .none) with
       | error e => rw [hc'] at h'; cases h'
       | ok c' =>
         rw [hc'] at h'
@@ -348,7 +348,7 @@ theorem row_elems_eq {K : Consts} {cass : List Cas} {hp hp' : Heap} {byId byId' 
     (h : renderRow K cass hp byId t ann a = .ok r) (h' : renderRow K cass hp' byId' t ann a = .ok r)
     (harr : isArrayFs K hp a = true) (harr' : isArrayFs K hp' a = true) :
     ∃ v v' c, slot hp a "elements" = some v ∧ slot hp' a "elements" = some v' ∧
-      renderVal K hp byId (hp.length + 1) v = .ok c ∧ renderVal K hp' byId' (hp'.length + 1) v' = .ok c := by
+      renderVal K hp byId (2 * hp.length + 2) v = .ok c ∧ renderVal K hp' byId' (2 * hp'.length + 2) v' = .ok c := by
   obtain ⟨cov, _, h1, _⟩ := renderRow_ok h
   obtain ⟨cov', _, h1', _⟩ := renderRow_ok h'
   obtain ⟨v, c, hv, hc, hr⟩ := h1 harr
